@@ -9,7 +9,7 @@ Line-protocol driver for the C17 models.  Strings travel as comma-separated code
 empty string, `~` for Python `None`.  One output line per input line; `bad-op` on anything malformed.
 
   a repr s <cps> <printable flags 0/1 per char, or ->   -> cps of repr(str)
-  a repr i <int> | a repr f <lit> | a repr npf <lit> | a repr npi <int> | a repr b <0|1>
+  a repr i <int> | a repr f <lit> | a repr b <0|1>
   a parse <cps>                                           -> str:<cps> | int:<i> | bool:<0|1> | float:<cps> | exc:<T>
   l write <dims,> <ncol> <scale flags per axis 0/1>       -> tags;row|row|…   (cells: index n, data 1000000+k, scale 2000000+10000*ax+i)
   l read <dims,> <ncol> <tags,|-> <row|row|…>             -> ok <data,>;<scale or ~ per axis, '/' separated> | err:<kind>
@@ -55,8 +55,6 @@ def showVal : Except PyExc AttrVal → String
   | .ok (.int i) => "int:" ++ toString i
   | .ok (.bool b) => "bool:" ++ (if b then "1" else "0")
   | .ok (.float l) => "float:" ++ showCps l
-  | .ok (.npFloat l) => "npfloat:" ++ showCps l
-  | .ok (.npInt i) => "npint:" ++ toString i
   | .error e => excStr e
 
 def attrLine : List String → String
@@ -69,14 +67,8 @@ def attrLine : List String → String
   | ["repr", "i", n] => match n.toInt? with
     | some i => showCps (pyRepr (fun _ => true) (.int i))
     | none => "bad-op"
-  | ["repr", "npi", n] => match n.toInt? with
-    | some i => showCps (pyRepr (fun _ => true) (.npInt i))
-    | none => "bad-op"
   | ["repr", "f", l] => match parseCps l with
     | some s => showCps (pyRepr (fun _ => true) (.float s))
-    | none => "bad-op"
-  | ["repr", "npf", l] => match parseCps l with
-    | some s => showCps (pyRepr (fun _ => true) (.npFloat s))
     | none => "bad-op"
   | ["repr", "b", b] => match parseBool b with
     | some v => showCps (pyRepr (fun _ => true) (.bool v))
